@@ -16,7 +16,7 @@ __CPROVER_ensures(g_exc == 0 ==> $ret == M64($this, $2) - M64($1, $2))
 '''
 UNITS = [Unit('ts.get_time_offset', (TS + 'get_time_offset', None), contract=GET_C, prelude=P,
               setup='  struct Timestamp obj; struct Timestamp ref;\n  unsigned long a_tps;\n',
-              args=['&obj', '&ref', 'a_tps'], props=['C17'], timeout=300,
+              args=['&obj', '&ref', 'a_tps'], props=['C17'], timeout=1200,
               post='  if (g_exc != 0) { CANARY("refusal reachable"); }',
               note='result == machine instant(this) - machine instant(ref) exactly (no wrap), all tick rates 0..10^9 (0 = refusal); '
                    'machine instant == mathematical instant by lemma ts.lemma.modular')]
